@@ -36,11 +36,12 @@ pub struct Outcome {
     pub problems: Vec<(String, String)>, // (signature, description)
     pub multi_chunk: bool,
     pub n_packs: usize,
+    pub notes: Vec<String>,
 }
 
 /// full C01 pipeline for one (config, model) on a fresh repository
 pub fn roundtrip(ctx: &Ctx, case: u64, r: &mut Rng, cfg: &GenCfg, model: &ModelTree, on_disk: bool, frag: Frag) -> Outcome {
-    let mut out = Outcome { problems: Vec::new(), multi_chunk: false, n_packs: 0 };
+    let mut out = Outcome { problems: Vec::new(), multi_chunk: false, n_packs: 0, notes: Vec::new() };
     let t0 = std::time::Instant::now();
     let timing = std::env::var("VERIF_TIMING").is_ok();
     let tick = |what: &str| {
@@ -74,7 +75,23 @@ pub fn roundtrip(ctx: &Ctx, case: u64, r: &mut Rng, cfg: &GenCfg, model: &ModelT
         model.write_to_disk(&src).expect("write model to disk");
         backup_dir(&repo, &src, &BackupOptions::default(), snap_at(1_700_000_000, "h"))
     } else {
-        backup_model(&repo, model, frag, &BackupOptions::default(), snap_at(1_700_000_000, "h"))
+        // one synthetic source in three looks like a tree that spans file systems and was recorded without device
+        // ids: every file has a link count of 2 and they all share one inode number, though they are different files
+        if r.chance(1, 3) {
+            let root = std::path::PathBuf::from(crate::repo::ROOT);
+            let mut src = model.synth_source(&root, frag);
+            for e in &mut src.entries {
+                if e.data.is_some() {
+                    e.node.meta.links = 2;
+                    e.node.meta.inode = 4711;
+                    e.node.meta.device_id = 0;
+                }
+            }
+            out.notes.push("shared-inode-without-device-id".to_string());
+            repo.archive(&BackupOptions::default(), &src, snap_at(1_700_000_000, "h"), &[root])
+        } else {
+            backup_model(&repo, model, frag, &BackupOptions::default(), snap_at(1_700_000_000, "h"))
+        }
     };
     let snap = match snap {
         Ok(s) => s,
@@ -260,6 +277,9 @@ fn one_case(ctx: &Ctx, case: u64, r: &mut Rng, rep: &mut Report) {
         Err(p) => rep.violation(case, format!("panic:{}", panic_sig(&p)), format!("panic during backup/restore round trip: {p} [{}]", cfg.desc), detail),
         Ok(out) => {
             rep.count("packs_written", out.n_packs as u64);
+            for n in &out.notes {
+                rep.count(&format!("sources_{}", n.replace('-', "_")), 1);
+            }
             let mut seen = std::collections::BTreeSet::new();
             for (sig, desc) in out.problems {
                 let sig = if collide != "none" && (sig.starts_with("unreadable") || sig.starts_with("check") || sig.starts_with("restore-error")) {
